@@ -200,6 +200,21 @@ func (e *scaleEnv) quantity(x ast.Expr) (lin, bool) {
 		if fn != nil && fn.Name() == "Value" {
 			return e.expOfAmount(core.RecvExpr(v))
 		}
+		// a one-line accessor of package num on an amount (Float64): evaluate its
+		// return expression with the receiver bound to the actual amount
+		if fn != nil && core.InModule(fn.Pkg()) && core.RecvExpr(v) != nil && isAmountType(e.info.TypeOf(core.RecvExpr(v))) {
+			if cfd := e.c.P.DeclOf(fn); cfd != nil && len(cfd.Decl.Body.List) == 1 {
+				if r, ok := cfd.Decl.Body.List[0].(*ast.ReturnStmt); ok && len(r.Results) == 1 {
+					if rexp, ok := e.expOfAmount(core.RecvExpr(v)); ok {
+						sub := &scaleEnv{c: e.c, fd: cfd, info: cfd.Pkg.TypesInfo, amtExp: map[*types.Var]lin{}, valForm: map[*types.Var]lin{}, scale: map[*types.Var]lin{}}
+						if rv := recvVar(cfd); rv != nil {
+							sub.amtExp[rv] = rexp
+						}
+						return sub.quantity(r.Results[0])
+					}
+				}
+			}
+		}
 	case *ast.BinaryExpr:
 		a, ok1 := e.quantity(v.X)
 		b, ok2 := e.quantity(v.Y)
@@ -585,6 +600,19 @@ func C05(c *core.Ctx) {
 				case *ast.CallExpr:
 					if tv, ok := info.Types[x.Fun]; ok && tv.IsType() && len(x.Args) == 1 {
 						return containsQuo(x.Args[0], depth+1)
+					}
+					// a module function returning a float that divides (Amount.Float64)
+					if fn := core.Callee(info, x); fn != nil && core.InModule(fn.Pkg()) && isFloat(info.TypeOf(x)) {
+						if cfd := p.DeclOf(fn); cfd != nil {
+							div := false
+							ast.Inspect(cfd.Decl.Body, func(n ast.Node) bool {
+								if be, ok := n.(*ast.BinaryExpr); ok && be.Op == token.QUO && isFloat(cfd.Pkg.TypesInfo.TypeOf(be)) {
+									div = true
+								}
+								return true
+							})
+							return div
+						}
 					}
 				case *ast.UnaryExpr:
 					return containsQuo(x.X, depth+1)
